@@ -305,6 +305,28 @@ def r5_unknown_keys(ctx, rep):
     rep.ob("markdown metadata: unknown keys warned and dropped", ok,
            "the unknown-key path warns and the key is removed from the settings dict" if ok else
            "convert_types_from_metapreprocessor no longer warns about and removes unknown keys", py.nloc(m))
+    # ... and only unknown keys are dropped: the converted value of a key of the schema is stored whatever the value is - an option
+    # written with an empty value (`docmark_alt:`, the documented way to switch the alternative marker off) must not fall back to
+    # its default, which the other two formats would not do either
+    mev = astq.trace(m)
+    stores = [e for e in mev if e.kind == "assign" and e.value is not None and e.loops and
+              any(isinstance(c, ast.Call) and call_name(c).split(".")[-1] == "convert_setting" for c in ast.walk(e.value))]
+    if not stores:
+        raise AnalysisError("convert_types_from_metapreprocessor: the store of the converted value was not found")
+
+    def known_atom(x):
+        if isinstance(x, ast.Compare) and len(x.ops) == 1 and isinstance(x.ops[0], (ast.In, ast.NotIn)) and isinstance(x.left, ast.Name):
+            return ("known", isinstance(x.ops[0], ast.In))
+        return None
+    for e in stores:
+        loop = e.loops[-1]
+        outer = {id(t_) for t_, _p, _s in next((x.conds for x in mev if x.kind == "loop" and x.node is loop), [])}
+        extra = [t_ for t_, _p, _s in e.conds if id(t_) not in outer and known_atom(t_) is None and
+                 not (isinstance(t_, ast.UnaryOp) and known_atom(t_.operand) is not None)]
+        rep.ob("markdown metadata: every key of the schema is converted and kept", not extra,
+               "nothing but `key in schema` decides whether a value is stored" if not extra else
+               f"the converted value is stored only under {[ast.unparse(t_)[:50] for t_ in extra]}: for some values of a known option the "
+               f"project file silently keeps the default while fpm.toml and --config use the value given", py.nloc(e.node))
     toml = py.func("settings.load_toml_settings")
     t = ast.unparse(toml)
     raw = re.search(r"ProjectSettings\(\*\*settings\['extra'\]\['ford'\]\)", t) is not None
@@ -818,9 +840,80 @@ def r16_defaults_do_not_overwrite(ctx, rep):
         ok = bool(stars) and ast.unparse(stars[-1]).startswith("self.")
         rep.ob(f"settings: `{ast.unparse(a)[:60]}`", ok, "the configured mapping is merged last" if ok else
                "the built-in table is merged after the configured mapping and overwrites it", py.nloc(a))
+    # ... and what the user wrote is validated before the built-in entries are mixed in: a check `for k in self.x: if k in
+    # self.y: raise` that runs after the merge rejects configurations in which the *built-in* keys clash - `external: mpi = ...`
+    # with no extra_mods at all
+    pi = py.ifunc("ProjectSettings.__post_init__")
+    ev = astq.trace(pi)
+    for i, e in enumerate(ev):
+        if e.kind != "assign" or e.value is None or not e.target or not e.target.startswith("self.") or e.target[5:] not in fields:
+            continue
+        if not any(isinstance(x, ast.Name) and x.id.isupper() for x in ast.walk(e.value)) or \
+                not isinstance(e.value, (ast.Dict, ast.BinOp, ast.Call)):
+            continue
+        tgt = e.target
+        late = [r for r in ev[i + 1:] if r.kind == "raise" and
+                (any(tgt in ast.unparse(l.iter) for l in r.loops if isinstance(l, ast.For)) or
+                 any(tgt in unparse_c for unparse_c in r.cond_texts()))]
+        n += 1
+        rep.ob(f"__post_init__: `{tgt}` is validated before built-in entries are merged in", not late,
+               "every rejection that looks at it precedes the merge" if not late else
+               f"`{late[0].text()[:70]}` runs after the merge: built-in entries are validated as if the user had written them, so a "
+               f"configuration that clashes with a *default* is refused", py.nloc(e.node))
     if n == 0:
         rep.ob("built-in defaults are merged under configured mappings", True, "no built-in table is merged into an option", "ford/settings.py",
                nontrivial=False)
+
+
+def r17_loader_paths_rooted(ctx, rep):
+    """A loader that has to open a file itself, before the settings object exists (files included into the metadata block with
+    `{!file!}`), looks it up from the project file's directory: the fallback of a `.get(<path option>, <fallback>)` on the raw
+    mapping derives from the loader's `directory` parameter.  The declared default of such an option is `Path(".")` - the current
+    working directory until normalise_paths has run -, so using it here makes `ford proj/proj.md` read other files than `cd proj;
+    ford proj.md`."""
+    py = ctx.py
+    fields = schema(py, "ProjectSettings")
+    n = 0
+    for mod, ifn in py.all_ifunctions():
+        fn = ifn
+        if mod != "settings" or not isinstance(fn, (ast.FunctionDef,)):
+            continue
+        a = fn.args
+        params = [x.arg for x in a.posonlyargs + a.args + a.kwonlyargs]
+        if "directory" not in params:
+            continue
+        for c in ast.walk(ifn):
+            if isinstance(c, ast.Call) and isinstance(c.func, ast.Attribute) and c.func.attr in ("get", "pop", "setdefault") and len(c.args) == 2 \
+                    and isinstance(c.args[0], ast.Constant) and c.args[0].value in fields and "Path" in fields[c.args[0].value]:
+                n += 1
+                made_of = astq.expand_locals(c.args[1], ifn)
+                ok = any(isinstance(x, ast.Name) and x.id == "directory" for e in made_of for x in ast.walk(e))
+                # ... and so does a value that *is* given: `md_base_dir: meta` means <project directory>/meta here as it does
+                # everywhere else - the looked-up value is joined onto the directory (or handed to normalise_path with it)
+                par = astq.parents_of(ifn)
+
+                def from_dir(e):
+                    return any(isinstance(x, ast.Name) and x.id == "directory" for y in astq.expand_locals(e, ifn) for x in ast.walk(y))
+                node, joined = c, False
+                while node in par and isinstance(par[node], ast.expr):
+                    up = par[node]
+                    if isinstance(up, ast.BinOp) and isinstance(up.op, ast.Div) and up.right is node and from_dir(up.left):
+                        joined = True
+                    if isinstance(up, ast.Call) and call_name(up).split(".")[-1] in ("normalise_path", "joinpath") and \
+                            any(from_dir(x) for x in ([up.func.value] if isinstance(up.func, ast.Attribute) else []) + list(up.args) if x is not node):
+                        joined = True
+                    node = up
+                rep.ob(f"{fn.name}: value of `{ast.unparse(c)[:60]}`", joined,
+                       "joined onto the directory of the project file" if joined else
+                       f"a relative `{c.args[0].value}` given in the project file is used as written - relative to the working directory -, "
+                       f"while every later use of the option is relative to the project file", py.nloc(c))
+                ok = ok or joined
+                rep.ob(f"{fn.name}: fallback of `{ast.unparse(c)[:60]}`", ok,
+                       "derives from the directory of the project file" if ok else
+                       f"`{ast.unparse(c.args[1])}` does not derive from the project file's directory: a relative name is looked up from the "
+                       f"working directory FORD was started in", py.nloc(c))
+    if n == 0:
+        rep.ob("no loader opens files by an option of its own", True, "", "ford/settings.py", nontrivial=False)
 
 
 RULES = [
@@ -839,4 +932,5 @@ RULES = [
     RuleSpec("C15.R14", r14_paths_do_not_depend_on_cwd, "path normalisation is a function of the project directory (shared with C19.R3)", floor=1),
     RuleSpec("C15.R15", r15_fields_split_at_blank_runs, "textual records in option values are split at runs of blanks", floor=1),
     RuleSpec("C15.R16", r16_defaults_do_not_overwrite, "built-in defaults are merged under configured values", floor=1),
+    RuleSpec("C15.R17", r17_loader_paths_rooted, "a loader's own file look-ups are rooted at the project file's directory", floor=1),
 ]
